@@ -26,7 +26,7 @@ func init() {
 		decided: "R1 every +1 on a backend's in-flight counter is followed on all exits, panics included, by a deferred -1 in the same function, and every +1 on its failure counter by exactly one goroutine that sleeps the fail timeout and adds -1, both only when the timeout is positive; " +
 			"R2 the counters are accessed only through sync/atomic; " +
 			"R3 the connection cap is compared in one place and incremented in another without CAS or a common lock (known finding: cap can be exceeded); " +
-			"R4 a host is down exactly on Unhealthy != 0 or Fails >= MaxFails.",
+			"R4 a host is down exactly on Unhealthy != 0 or Fails >= MaxFails; R5 the counters are written only by the designated +1/-1 pairs, the in-flight pair inside a per-attempt function.",
 		notDecided: "that the counter equals the number of forwards at all times under every interleaving; timer accuracy.",
 	})
 }
@@ -503,6 +503,59 @@ func runC14(r *Report, p *Program) {
 	atomicConsistency(h, "R2")
 	c14R3(h)
 	c14R4(h)
+	c14R5(h)
+}
+
+// c14R5: who may write the counters, and where.
+func c14R5(h H) {
+	r := h.r
+	r.Rule("R5", "who-may-write the counters: the only writes to UpstreamHost.Conns in the module are Add(+1) and a deferred Add(-1) in one function that is not a loop body (so the decrement runs when that attempt ends, not when the request ends); the only writes to UpstreamHost.Fails are Add(+1) in Proxy.ServeHTTP and Add(-1) in the goroutine it starts; nothing stores, swaps or resets them", 4)
+	n := 0
+	for _, fn := range h.p.ModFuncs() {
+		allInstrs(fn, func(in ssa.Instruction) {
+			addr, name, ok := isAtomicCall(in)
+			if !ok {
+				return
+			}
+			fa, isFA := addr.(*ssa.FieldAddr)
+			if !isFA || !strings.HasSuffix(strings.TrimPrefix(fa.X.Type().String(), "*"), "proxy.UpstreamHost") {
+				return
+			}
+			field := fieldName(fa.X.Type(), fa.Field)
+			if field != "Conns" && field != "Fails" {
+				return
+			}
+			if strings.HasPrefix(name, "Load") {
+				return
+			}
+			n++
+			c := callOf(in)
+			delta := int64(0)
+			if strings.HasPrefix(name, "Add") {
+				delta, _ = constInt(c.Args[1])
+			}
+			where := outerFunc(fn)
+			_, isDefer := in.(*ssa.Defer)
+			construct := sprintf("%s/%s.%s(%+d)", shortFunc(fn), field, name, delta)
+			switch {
+			case !strings.HasPrefix(name, "Add") || (delta != 1 && delta != -1):
+				r.Fail("R5", construct, in.Pos(), "the counter is overwritten instead of being incremented/decremented in pairs: outstanding decrements will later drive it out of step (below zero, or down while failures are still unexpired)")
+			case where != "(proxy.Proxy).ServeHTTP":
+				r.Fail("R5", construct, in.Pos(), "the counter is modified outside the request path that owns the pairing")
+			case field == "Conns" && delta == 1:
+				r.Check(!inLoop(in.Block()) && fn.Parent() != nil, "R5", construct, in.Pos(), "the in-flight increment lives in a per-attempt function, not directly in the retry loop (a defer in a loop only runs when the whole request ends)")
+			case field == "Conns" && delta == -1:
+				r.Check(isDefer && !inLoop(in.Block()), "R5", construct, in.Pos(), "the in-flight decrement is deferred in the per-attempt function")
+			case field == "Fails" && delta == -1:
+				r.Check(fn.Parent() != nil, "R5", construct, in.Pos(), "failures are taken back only by the timed goroutine")
+			default:
+				r.Hold("R5", construct, in.Pos(), "designated counter update")
+			}
+		})
+	}
+	if n < 4 {
+		r.Unresolve("R5", sprintf("only %d counter writes found", n))
+	}
 }
 
 func c14R1(h H) {
